@@ -129,11 +129,22 @@ def gen_calltables(repo):
         ped_needles = [needle_in_source(isped, 'is_pedantic')]
     if any(SCOPES.values()):        # `_decorator_lines` must be the text in front of the first 'def', as num_of_decorators reads it
         dl = single_return(find_func(df, '_decorator_lines', 'DecoratedFunction'), '_decorator_lines')
-        if ast.unparse(dl) != "self.source.split('def')[0]":
-            raise Skip('_decorator_lines: unexpected expression ' + ast.unparse(dl))
+        dl_txt = ast.unparse(dl)
+        if dl_txt == "self.source.split('def')[0]":
+            strips_comments = False
+        elif dl_txt == "'\\n'.join((line.split('#')[0] for line in self.source.split('def')[0].splitlines()))":
+            strips_comments = True          # per line, everything from the first '#' on is dropped
+        else:
+            raise Skip('_decorator_lines: unexpected expression ' + dl_txt)
+    else:
+        strips_comments = False
     nod = single_return(find_func(df, 'num_of_decorators', 'DecoratedFunction'), 'num_of_decorators')
     txt = ast.unparse(nod)
-    if txt != "len(re.findall('@', self.source.split('def')[0]))":
+    if txt == "len(re.findall('@', self.source.split('def')[0]))":
+        count_in_lines = False
+    elif txt == "len(re.findall('@', self._decorator_lines))":
+        count_in_lines = True
+    else:
         raise Skip('num_of_decorators: unexpected expression ' + txt)
 
     tr = BoolTr()
@@ -289,6 +300,9 @@ def gen_calltables(repo):
     L.append(f'def argsInHeader : Bool := {lean_bool(SCOPES.get("wants_args", False))}')
     L.append(f'def setterInHeader : Bool := {lean_bool(SCOPES.get("is_property_setter", False))}')
     L.append(f'def pedanticInHeader : Bool := {lean_bool(SCOPES.get("is_pedantic", False))}')
+    L.append('/-- the decorator lines are searched without their comments (per line, from the first `#` on); the decorators are counted there -/')
+    L.append(f'def headerStripsComments : Bool := {lean_bool(strips_comments)}')
+    L.append(f'def numDecoratorsCountedInHeaderLines : Bool := {lean_bool(count_in_lines)}')
     L.append("/-- num_of_decorators = number of '@' in the source text before the first 'def' -/")
     L.append('def decoratorMark : String := "@"\ndef decoratorSplit : String := "def"')
     L.append('/-- `DecoratedFunction.should_have_kwargs`, translated -/')
